@@ -29,6 +29,7 @@ struct Damage
   std::string what;   // description
   int region = 0;     // region class id
   bool reloc_cut = false;
+  bool is_cut = false;
 };
 
 // outcome codes written by the child, one byte per damage point
@@ -181,6 +182,7 @@ std::string run_case(Src& s, CaseInfo& ci)
     dmg.push_back(d);
   }
   size_t ncuts = dmg.size();
+  for (auto& d : dmg) d.is_cut = true;
   // single-field rewrites of header and table
   for (size_t i = 0; i < 4; i++)
     for (int v : {0, (int) 'X', 0xff})
@@ -240,6 +242,26 @@ std::string run_case(Src& s, CaseInfo& ci)
     }
   }
 
+  // consistent truncations: the sections from i on are dropped together with everything behind them and their
+  // table entries say "empty" - every length in the file is right, the rule set is still incomplete
+  for (size_t i = 0; i < nb; i++)
+  {
+    Damage d;
+    d.image = image.substr(0, body_start[i]);
+    for (size_t k = i; k < nb; k++) memset(&d.image[6 + k * 12 + 8], 0, 4);
+    d.region = 700 + (int) i;
+    d.what = strf("sections %zu.. dropped and declared empty (file of %zu bytes)", i, d.image.size());
+    dmg.push_back(d);
+  }
+  {
+    Damage d;
+    d.image = image.substr(0, table_end);
+    for (size_t k = 0; k < nb; k++) memset(&d.image[6 + k * 12], 0, 12);
+    d.region = 720;
+    d.what = "header and an all-zero section table, nothing else";
+    dmg.push_back(d);
+  }
+
   // the same claim through the command-line tool (cli/yara.c `-C`): a few cut points per file,
   // with and without a `-d` definition on the command line; the tool must refuse the file with
   // an error message and a non-zero exit status (cuts inside the relocation table are the listed
@@ -281,6 +303,11 @@ std::string run_case(Src& s, CaseInfo& ci)
     ci.classes.push_back("yara -C on cut files");
   }
 
+  // field rewrites and consistent truncations first, then the prefix cuts in ascending order: the enumeration
+  // of a file ends after 40 crashing points, and the crashing points of the unchanged tree are the cuts
+  // inside the trailing relocation table
+  std::stable_sort(dmg.begin(), dmg.end(), [](const Damage& a, const Damage& b) { return !a.is_cut && b.is_cut; });
+
   // enumerate, resuming behind every crashing point
   std::string outcomes;
   std::vector<size_t> crashed;
@@ -293,7 +320,7 @@ std::string run_case(Src& s, CaseInfo& ci)
       crashed.push_back(outcomes.size());
       outcomes += 'c';
       if (crashed.size() > 40)
-        break;
+        break;  // (cuts inside the relocation table - the listed known finding - crash by the hundred: they come last)
     }
   }
   ci.sub_evals = outcomes.size();
@@ -304,10 +331,10 @@ std::string run_case(Src& s, CaseInfo& ci)
   {
     regions.insert(dmg[k].region);
     char o = outcomes[k];
-    bool is_cut = k < ncuts;
+    bool is_cut = dmg[k].is_cut;
     if (o == O_REJECTED)
       continue;
-    if (!is_cut && o == O_IDENTICAL && dmg[k].region >= 600)
+    if (!is_cut && o == O_IDENTICAL && dmg[k].region >= 600 && dmg[k].region < 700)
       continue;  // the table's `offset` field is not used by the format (sections follow each other): a rewrite of it changes nothing
     if (is_cut && dmg[k].reloc_cut && (o == O_IDENTICAL || o == O_DIFFERENT || o == 'c') && is_known(SIG_RELOC_CUT))
     {
